@@ -25,6 +25,21 @@ func Send[C ~chan T | ~chan<- T, T any](site string, c C, v T) {
 	Post(t)
 }
 
+// Sender is the typed handle used for instrumented send statements: the element
+// type is inferred from the channel alone, so the value keeps its assignability
+// (e.g. a []any sent on a chan any).
+type Sender[T any] struct{ c chan<- T }
+
+// Ch wraps a channel for an instrumented send.
+func Ch[C ~chan T | ~chan<- T, T any](c C) Sender[T] { return Sender[T]{c: (chan<- T)(c)} }
+
+// Send is `c <- v`.
+func (s Sender[T]) Send(site string, v T) {
+	t := Pre(site)
+	s.c <- v
+	Post(t)
+}
+
 // Close is `close(c)`.
 func Close[C ~chan T | ~chan<- T, T any](site string, c C) {
 	Pre(site)
@@ -42,7 +57,7 @@ type Sel struct {
 
 // NewSel starts an instrumented select.
 func NewSel(site string) *Sel {
-	s := cur.Load()
+	s := active()
 	if s == nil {
 		return nil
 	}
@@ -79,18 +94,29 @@ func SelRecv[C ~chan T | ~<-chan T, T any](s *Sel, c C) *C {
 	return h
 }
 
+// SendCase is a registered send case of an instrumented select.
+type SendCase[C ~chan T | ~chan<- T, T any] struct {
+	C C // the channel the real select must use
+	v T
+}
+
+// Val records (and returns) the value to send.
+func (sc *SendCase[C, T]) Val(v T) T {
+	sc.v = v
+	return v
+}
+
 // SelSend registers a send case.
-func SelSend[C ~chan T | ~chan<- T, T any](s *Sel, c C, v T) (*C, T) {
-	h := new(C)
-	*h = c
+func SelSend[C ~chan T | ~chan<- T, T any](s *Sel, c C) *SendCase[C, T] {
+	sc := &SendCase[C, T]{C: c}
 	if s == nil {
-		return h, v
+		return sc
 	}
 	s.tries = append(s.tries, func() (fired bool) {
 		select {
-		case c <- v:
+		case c <- sc.v:
 			sub := make(chan T, 1)
-			*h = C(sub)
+			sc.C = C(sub)
 			return true
 		default:
 			return false
@@ -98,9 +124,9 @@ func SelSend[C ~chan T | ~chan<- T, T any](s *Sel, c C, v T) (*C, T) {
 	})
 	s.masks = append(s.masks, func() {
 		var zero C
-		*h = zero
+		sc.C = zero
 	})
-	return h, v
+	return sc
 }
 
 // Poll is the scheduling point of the select: it then tries the cases in a
